@@ -242,14 +242,21 @@ def strings_of(node, out):
 
 
 def run(tier):
-    from graphql import parse, print_ast
-
     ck = Check("CBLOCK", tier)
     ck.nontrivial = _Distinct()
     ck.assumptions += ASSUMPTIONS
     br = common.build("CBLOCK", models=(MODEL,), extra_targets=(f"theories/{THMS}o",))
     proofs(ck, br)
-    m = Model(MODEL) if br.ok else None
+    core(ck, tier, br.ok)
+    return ck.finish()
+
+
+def core(ck, tier, model_ok):
+    """The block-string correspondence and round-trip exploration, reporting into `ck`
+    (used by `./check CBLOCK` and as the block-string part of `./check C08`)."""
+    from graphql import parse, print_ast
+
+    m = Model(MODEL) if model_ok else None
     quick = tier == "quick"
     rng = ck.rng
     nv = 4 if quick else 5          # values: all strings of length <= nv
@@ -498,7 +505,6 @@ def run(tier):
     ck.count("tree_documents", nD)
     ck.samples.append({"value": dvals[len(dvals) // 2] if dvals else "", "document": print_ast(op_doc(dvals[len(dvals) // 2], 2)) if dvals else ""})
     flush()
-    return ck.finish()
 
 
 def impl_body(v):
